@@ -163,18 +163,22 @@ def run_spec(spec, props=("C07", "C08")):
         return A.result(props)
     if kind == "regular":
         G = gr.mk(spec["n"], [tuple(e) for e in spec["edges"]]); N = float(G.order())
+        for i, (u, v) in enumerate(G.edges()):
+            G[u][v]["weight"] = 0.37 + 0.45 * i      # an attribute literally named 'weight' must not leak into unweighted calls
         for model in ("SIS", "SIR"):
             pair_family = [model + "_heterogeneous_pairwise_from_graph", model + "_compact_pairwise_from_graph", model + "_pair_based", model + "_homogeneous_pairwise_from_graph"]
             mf_family = [model + "_heterogeneous_meanfield_from_graph", model + "_individual_based", model + "_homogeneous_meanfield_from_graph"]
             for fam, famname in ((pair_family, "pairwise"), (mf_family, "meanfield")):
-                for rho in spec["rhos"]:
+                for rho in list(spec["rhos"]) + ([-1.0] if spec["n"] >= 3 else []):      # -1.0 stands for "rho left out": the documented default 1/N
                     for (tau, gamma), grid in [(r_, tuple(g_)) for r_ in spec["rates"] for g_ in spec["grids"]]:
                         A.evals += 1
                         tag = "%s-regular graph %s (n=%d), %s %s family, rho=%g, tau=%g, gamma=%g" % (spec["degree"], spec["name"], spec["n"], model, famname, rho, tau, gamma)
                         outs = {}
                         for name in fam:
                             try:
-                                outs[name] = cat.call(EoN, name, G, ("rho", rho), tau, gamma, grid, False)
+                                if rho < 0 and not cat.supports(name, ("default",)):
+                                    continue       # (the node-level models have no default initial condition)
+                                outs[name] = cat.call(EoN, name, G, (("rho", rho) if rho >= 0 else ("default",)), tau, gamma, grid, False)
                             except Exception as e:
                                 A.add(V("C07", name, "regular", "exception", "%s: %s raised %s: %s" % (tag, name, type(e).__name__, str(e)[:100])))
                         if len(outs) < 2:
